@@ -203,13 +203,31 @@ pub fn validate(doc: &Y, explicit_ids: &[String]) -> Vec<Problem> {
     for (id, uses) in ids.iter() {
         if uses.len() > 1 && !explicit_ids.contains(id) {
             let same_path = uses.iter().all(|u| u.1 == uses[0].1);
+            // The documented scheme: method, then one label per segment (lower-cased literal,
+            // `root` for the empty segment, the name of a variable), joined by `-`.
+            let documented = |m: &str, path: &str| -> String {
+                let mut parts = vec![m.to_owned()];
+                for seg in path.split('/').skip(1) {
+                    parts.push(if seg.is_empty() {
+                        "root".to_owned()
+                    } else if seg.starts_with('{') && seg.ends_with('}') {
+                        seg[1..seg.len() - 1].to_lowercase()
+                    } else {
+                        seg.to_lowercase()
+                    });
+                }
+                parts.join("-")
+            };
+            let by_scheme = uses.iter().all(|u| documented(&u.0, &u.1) == *id);
             // Different paths whose label sequences coincide (variable vs literal segment,
             // letter case, `-` inside a segment, the `root` label).
             probs.push(Problem {
                 class: if same_path {
                     "operationId not unique | methods of one path".into()
-                } else {
+                } else if by_scheme {
                     "operationId not unique | different paths with the same generated label".into()
+                } else {
+                    "operationId not unique | paths whose labels differ under the documented scheme".into()
                 },
                 detail: format!("{id}: {uses:?}"),
             });
